@@ -34,6 +34,7 @@ const (
 	aPath                   // inside a big struct behind ref, no heap variable yet
 	aStruct                 // whole struct behind a pointer
 	aElem                   // element of a slice value (read only)
+	aImm                    // immutable field of a heap object: pure function of the reference
 )
 
 type selStep struct {
@@ -69,6 +70,7 @@ type state struct {
 	ghost  map[string]Val
 	pc     string
 	defers []*ssa.Defer
+	frozen map[string]*types.Map // map references known to be immutable on this path
 }
 
 func (s *state) clone() *state {
@@ -83,6 +85,10 @@ func (s *state) clone() *state {
 		c.ghost[k] = v
 	}
 	c.defers = append([]*ssa.Defer{}, s.defers...)
+	c.frozen = map[string]*types.Map{}
+	for k, v := range s.frozen {
+		c.frozen[k] = v
+	}
 	return c
 }
 
@@ -153,6 +159,9 @@ type fnCtx struct {
 	implBlocks []*block
 	lastVisited string
 	prefix string
+	freshRefs map[string]bool
+	frozenTag map[string]*types.Map
+	frozenNow map[string]bool
 	allocFacts map[string]bool
 	allowedLocs map[string][]string
 	modsOf map[*ssa.BasicBlock]modSet
@@ -310,8 +319,13 @@ func (fc *fnCtx) fieldAddr(base *Addr, i int) *Addr {
 			return &Addr{kind: aPath, ref: base.ref, prefix: name, typ: ft, meta: f.Embedded() && f.Name() == "ObjectMeta"}
 		}
 		s := fc.sortOf(ft)
+		if key := strings.Replace(name, "!", ".", 1); fc.e.db.immutable[key] {
+			fn := "|F!" + name + "|"
+			fc.declFun(fn, "(V) "+s)
+			return &Addr{kind: aImm, ref: base.ref, hv: fn, hsort: s, typ: ft, prefix: key}
+		}
 		return &Addr{kind: aHeap, ref: base.ref, hv: "|H!" + name + "|", hsort: s, typ: ft, meta: f.Embedded() && f.Name() == "ObjectMeta"}
-	case aHeap, aCell, aElem:
+	case aHeap, aCell, aElem, aImm:
 		ds := fc.sortOf(base.typ)
 		dt := fc.e.sorts.dts[ds]
 		if dt == nil {
@@ -359,6 +373,15 @@ func (fc *fnCtx) updateSel(base string, sel []selStep, v string) string {
 }
 
 func (fc *fnCtx) load(st *state, a *Addr) Val {
+	v := fc.load0(st, a)
+	if n := len(a.sel); n > 0 && a.sel[n-1].dt != nil && v.S == "V" {
+		v.Ty = a.typ
+		fc.tagFrozenField(st, v, selKey(a.sel[n-1]))
+	}
+	return v
+}
+
+func (fc *fnCtx) load0(st *state, a *Addr) Val {
 	s := fc.sortOf(a.typ)
 	switch a.kind {
 	case aCell:
@@ -389,6 +412,13 @@ func (fc *fnCtx) load(st *state, a *Addr) Val {
 	case aElem:
 		t := fc.applySel(fmt.Sprintf("(select (sarr %s) %s)", a.slice.T, a.idx), a.sel)
 		return Val{T: t, S: s, Ty: a.typ}
+	case aImm:
+		t := fc.applySel(fmt.Sprintf("(%s %s)", a.hv, a.ref), a.sel)
+		v := Val{T: t, S: s, Ty: a.typ}
+		if len(a.sel) == 0 {
+			fc.tagFrozenField(st, v, a.prefix)
+		}
+		return v
 	case aStruct:
 		if s == "BIG" {
 			unsup("load of whole big struct %s", typeName(a.typ))
@@ -409,6 +439,10 @@ func (fc *fnCtx) load(st *state, a *Addr) Val {
 }
 
 func (fc *fnCtx) store(st *state, a *Addr, v Val) {
+	if n := len(a.sel); n > 0 && a.sel[n-1].dt != nil && v.S == "V" {
+		v.Ty = a.typ
+		fc.freezeField(st, v, selKey(a.sel[n-1]))
+	}
 	switch a.kind {
 	case aCell:
 		cs := fc.sortOf(a.cell.Type().(*types.Pointer).Elem())
@@ -437,6 +471,12 @@ func (fc *fnCtx) store(st *state, a *Addr, v Val) {
 		for i, f := range dt.fields {
 			fc.store(st, fc.fieldAddr(a, i), Val{T: fmt.Sprintf("(%s %s)", f.name, v.T), S: f.sort, Ty: f.typ})
 		}
+	case aImm:
+		if !fc.freshRefs[a.ref] || len(a.sel) > 0 {
+			unsup("store to immutable field %s of an object not allocated in this function", a.prefix)
+		}
+		fc.assume(st, fmt.Sprintf("(= (%s %s) %s)", a.hv, a.ref, v.T))
+		fc.freezeField(st, v, a.prefix)
 	case aElem:
 		unsup("store through slice element (slice aliasing is not modelled)")
 	case aPath:
@@ -470,6 +510,9 @@ func (fc *fnCtx) declFun(name, sig string) {
 		return
 	}
 	fc.heapSort[name] = sig
+	if fc.e.theoryDeclares(fc.theories, name) {
+		return
+	}
 	// sig "(A B) R"
 	i := strings.LastIndex(sig, ")")
 	fc.decls = append(fc.decls, fmt.Sprintf("(declare-fun %s %s %s)", name, sig[:i+1], strings.TrimSpace(sig[i+1:])))
@@ -560,6 +603,14 @@ func (fc *fnCtx) freshVal(st *state, prefix string, t types.Type) Val {
 func (fc *fnCtx) typeFacts(st *state, v Val) {
 	if strings.HasPrefix(v.S, "(Slice ") {
 		fc.assume(st, fmt.Sprintf("(>= (slen %s) 0)", v.T))
+		return
+	}
+	if dt, ok := fc.e.sorts.dts[v.S]; ok {
+		for _, f := range dt.fields {
+			if strings.HasPrefix(f.sort, "(Slice ") || fc.e.sorts.dts[f.sort] != nil {
+				fc.typeFacts(st, Val{T: fmt.Sprintf("(%s %s)", f.name, v.T), S: f.sort})
+			}
+		}
 	}
 }
 
@@ -657,6 +708,11 @@ func (fc *fnCtx) merge(ins []inEdge) *state {
 		k := k
 		if v, ok := mergeVals(func(s *state) (Val, bool) { v, ok := s.ghost[k]; return v, ok }); ok {
 			out.ghost[k] = v
+		}
+	}
+	for _, e := range ins[1:] {
+		for k, v := range e.st.frozen {
+			out.frozen[k] = v
 		}
 	}
 	// defers must agree
